@@ -5,6 +5,7 @@ import (
 	"fmt"
 	"image"
 	"image/color"
+	"io"
 	"strings"
 
 	webp "github.com/deepteams/webp"
@@ -174,14 +175,23 @@ func expectedNRGBA(img image.Image) *image.NRGBA {
 
 // suiteRoundtrip: C01 end to end — webp.Encode(Lossless) then webp.Decode reproduces every pixel.
 func suiteRoundtrip(rep *Report) error {
-	rep.Rule = "image class x alpha class x size (1x1, 1xN, Nx1, around 2^k +-1, ragged) x Go image type {NRGBA,RGBA,Gray,Paletted,NRGBA64,generic,subimage,RGBA64} x Quality {0,10,24,25,49,50,74,75,89,90,100} x Method 0..6 x Exact x metadata; decoded pixels compared with NRGBAModel.Convert(src.At) (alpha-0 pixels may be transparent black unless Exact); non-trivial = image has >= 2 distinct pixels; distinct = hash of (pixels, options)"
+	rep.Rule = "image class x alpha class x size (1x1, 1xN, Nx1, around 2^k +-1, ragged) x Go image type {NRGBA,RGBA,Gray,Paletted,NRGBA64,generic,subimage,RGBA64} x Quality {0,10,24,25,49,50,74,75,89,90,100} x Method 0..6 x Exact x metadata, plus a sweep of one non-opaque pixel at raster index 0 / 1 / each of the last 8 positions (sizes with pixel count mod 4 = 0..3) and two-colour pictures with controlled runs of unused symbols (2/3, 10/11, 138/139/140, 130..145) in the code-length vector; decoded pixels compared with NRGBAModel.Convert(src.At) (alpha-0 pixels may be transparent black unless Exact); non-trivial = image has >= 2 distinct pixels; distinct = hash of (pixels, options)"
 	n := 700
 	if rep.Tier == "thorough" {
 		n = 20000
 	}
 	quals := []float32{0, 10, 24, 25, 49, 50, 74, 75, 89, 90, 100}
 	sizes := [][2]int{{1, 1}, {1, 17}, {23, 1}, {2, 2}, {3, 5}, {7, 8}, {8, 8}, {9, 7}, {15, 16}, {16, 17}, {17, 33}, {31, 32}, {33, 17}, {64, 48}, {65, 3}, {96, 96}}
-	for i := 0; i < n; i++ {
+	// two deterministic legs after the n random cases (see suiteConform): one non-opaque pixel at raster
+	// index 0 / 1 / each of the last 8 positions over sizes with pixel count mod 4 = 0..3, and two-colour
+	// pictures with controlled runs of unused symbols in the code-length vector
+	sparsePos := []int{0, 1, -1, -2, -3, -4, -5, -6, -7, -8}
+	nSparse := len(SparseAlphaSizes) * len(sparsePos)
+	nZero := 90
+	if rep.Tier == "thorough" {
+		nZero = 3000
+	}
+	for i := 0; i < n+nSparse+nZero; i++ {
 		r := NewRNG(rep.Seed, uint64(i))
 		sz := sizes[r.Intn(len(sizes))]
 		if i%97 == 0 {
@@ -191,8 +201,36 @@ func suiteRoundtrip(rep *Report) error {
 			}
 		}
 		cls, acls := r.Intn(NumImgClasses), r.Intn(NumAlphaClasses)
-		base := GenImage(r, sz[0], sz[1], cls, acls)
+		var base *image.NRGBA
+		idesc := ""
+		switch {
+		case i < n:
+			base = GenImage(r, sz[0], sz[1], cls, acls)
+			idesc = imgDesc(sz[0], sz[1], cls, acls)
+		case i < n+nSparse:
+			k := i - n
+			sz = SparseAlphaSizes[k/len(sparsePos)]
+			pos := sparsePos[k%len(sparsePos)]
+			var ok bool
+			base, ok = GenImageSparseAt(r, sz[0], sz[1], cls, []int{pos}, []byte{0, 100, 254, 1}[k%4])
+			if !ok {
+				continue
+			}
+			acls = AlphaSparse
+			idesc = fmt.Sprintf("%dx%d/%s/sparse@%d", sz[0], sz[1], imgClassNames[cls], pos)
+		default:
+			var what string
+			base, sz[0], sz[1], what = GenZeroRunImage(r, r.Chance(1, 3))
+			cls, acls = ClsPal2, AlphaNone
+			if anyNonOpaque(base) {
+				acls = AlphaBinary
+			}
+			idesc = fmt.Sprintf("%dx%d/%s", sz[0], sz[1], what)
+		}
 		kind := r.Intn(numImgTypes)
+		if i >= n+nSparse && kind == 2 {
+			kind = 0 // (Gray would merge the two colours' meaning; keep the bit pattern)
+		}
 		if sz[0]*sz[1] > 50000 {
 			kind = []int{0, 0, 5, 6}[r.Intn(4)]
 		}
@@ -205,7 +243,7 @@ func suiteRoundtrip(rep *Report) error {
 			// lossy-only options must not matter
 			o.SNSStrength, o.Segments, o.AlphaQuality = r.Intn(101), 1+r.Intn(4), r.Intn(101)
 		}
-		desc := fmt.Sprintf("%s type=%s q=%v m=%d exact=%v meta=%v", imgDesc(sz[0], sz[1], cls, acls), tname, o.Quality, o.Method, o.Exact, o.ICC != nil)
+		desc := fmt.Sprintf("%s type=%s q=%v m=%d exact=%v meta=%v", idesc, tname, o.Quality, o.Method, o.Exact, o.ICC != nil)
 		want := expectedNRGBA(img)
 		file, err := encodeBytes(img, o)
 		if err != nil {
@@ -227,6 +265,10 @@ func suiteRoundtrip(rep *Report) error {
 		if !same {
 			rep.Add(Finding{Kind: "property", Property: "C01", Signature: "roundtrip:pixels:" + tname + fmt.Sprintf(":exact=%v", o.Exact),
 				Detail: desc + ": " + why, Input: map[string]any{"op": "roundtrip", "case": i, "seed": rep.Seed, "desc": desc, "hex": short(hx(file), 4000)}})
+		}
+		if ft, ferr := webp.GetFeatures(bytes.NewReader(file)); ferr == nil && anyNonOpaque(got) && !ft.HasAlpha {
+			rep.Add(Finding{Kind: "property", Property: "C16", Signature: "features:alpha-flag-missing", Detail: desc + ": decoded image has a non-opaque pixel but GetFeatures.HasAlpha is false",
+				Input: map[string]any{"op": "roundtrip", "case": i, "seed": rep.Seed, "desc": desc, "hex": short(hx(file), 4000)}})
 		}
 		if i%5 == 0 {
 			// registered-format path
@@ -283,9 +325,57 @@ func anyNonOpaque(img image.Image) bool {
 
 // suiteC16: header queries agree with a full decode; container views agree with one another.
 func suiteC16(rep *Report) error {
-	rep.Rule = "inputs: encoder / muxer / animation-encoder outputs, hand-assembled well-formed containers (VP8X with/without ALPH incl. zero-length, odd/empty/unknown chunks, metadata before/after, flags over/under-stating), and mutations that Decode still accepts; for each accepted still: DecodeConfig, GetFeatures, image.DecodeConfig vs the decoded image (size, colour model, format name, alpha flag for package-written files); for well-formed files: GetFeatures / DecodeConfig / Demuxer / animation.DecodeBytes agree on canvas, animation flag, frame count, loop count; non-trivial = Decode accepted or the file is animated"
+	rep.Rule = "inputs: encoder / muxer / animation-encoder outputs (seed corpus, plus fresh encodes: one non-opaque pixel at raster index 0 / 1 / each of the last 8 positions over sizes with pixel count mod 4 = 0..3, lossless with/without metadata and lossy, and random pictures over all alpha classes), hand-assembled well-formed containers (VP8X with/without ALPH incl. zero-length, odd/empty/unknown chunks, metadata before/after, flags over/under-stating), and mutations that Decode still accepts; for each accepted still: DecodeConfig, GetFeatures, image.DecodeConfig vs the decoded image (size, colour model, format name, alpha flag for package-written files); for well-formed files: GetFeatures / DecodeConfig / Demuxer / animation.DecodeBytes agree on canvas, animation flag, frame count, loop count; non-trivial = Decode accepted or the file is animated"
 	inputs, seeds := containerInputs(rep.Seed, rep.Tier)
 	_ = seeds
+	// freshly encoded files (package-written, so the alpha flag must cover every non-opaque decoded
+	// pixel): one non-opaque pixel at raster index 0 / 1 / each of the last 8 positions over sizes with
+	// pixel count mod 4 = 0..3, lossless (with and without metadata) and lossy; and random pictures
+	// over all alpha classes
+	{
+		var fresh []cInput
+		k := 0
+		enc := func(img image.Image, lossless bool, meta bool, r *RNG) {
+			o := webp.DefaultOptions()
+			o.Lossless = lossless
+			o.Method = r.Intn(7)
+			o.Quality = float32([]int{20, 75, 100}[r.Intn(3)])
+			o.Exact = r.Bool()
+			if meta {
+				o.EXIF = []byte("Exif\x00\x00c16")
+			}
+			if b, err := encodeBytes(img, o); err == nil {
+				fresh = append(fresh, cInput{b, "enc-fresh"})
+			}
+		}
+		for _, sz := range SparseAlphaSizes {
+			for _, pos := range []int{0, 1, -1, -2, -3, -4, -5, -6, -7, -8} {
+				k++
+				r := NewRNG(rep.Seed, 0x1600000+uint64(k))
+				img, ok := GenImageSparseAt(r, sz[0], sz[1], r.Intn(NumImgClasses), []int{pos}, []byte{100, 0, 254, 1}[k%4])
+				if !ok {
+					continue
+				}
+				enc(img, true, k%2 == 0, r)
+				if k%3 == 0 {
+					enc(img, false, k%2 == 1, r)
+				}
+			}
+		}
+		nr := 60
+		if rep.Tier == "thorough" {
+			nr = 1500
+		}
+		for i := 0; i < nr; i++ {
+			r := NewRNG(rep.Seed, 0x1610000+uint64(i))
+			sz := SparseAlphaSizes[r.Intn(len(SparseAlphaSizes))]
+			if r.Bool() {
+				sz = [2]int{1 + r.Intn(24), 1 + r.Intn(24)}
+			}
+			enc(GenImage(r, sz[0], sz[1], r.Intn(NumImgClasses), r.Intn(NumAlphaClasses)), r.Chance(2, 3), r.Chance(1, 3), r)
+		}
+		inputs = append(fresh, inputs...)
+	}
 	accepted := 0
 	for idx, in := range inputs {
 		if strings.HasPrefix(in.kind, "sweep") && idx%7 != 0 {
@@ -302,8 +392,8 @@ func suiteC16(rep *Report) error {
 			}()
 			img, derr = webp.Decode(bytes.NewReader(data))
 		}()
-		wellFormed := in.kind == "seed"
-		pkgWritten := in.kind == "seed"
+		wellFormed := in.kind == "seed" || in.kind == "enc-fresh"
+		pkgWritten := in.kind == "seed" || in.kind == "enc-fresh"
 		if derr == nil && img != nil && !isAnimatedFile(data) {
 			accepted++
 			cfg, cerr := webp.DecodeConfig(bytes.NewReader(data))
@@ -570,7 +660,7 @@ func wellFormedLayouts(r *RNG, seeds []Seed, n int) []cInput {
 
 // suiteC17: every proper prefix of every valid still either fails or gives the full file's result.
 func suiteC17(rep *Report) error {
-	rep.Rule = "valid still files (lossy with 1/2/4/8 partitions, lossless, lossy+alpha raw/compressed, extended with metadata before and after the image, odd payloads, testdata); for EVERY prefix length 0..len-1: Decode, DecodeConfig and GetFeatures must fail or equal the full-file result (exhaustive per file); the same prefixes go through the Lean container model (features/config ops) for correspondence; non-trivial = prefix length > 12"
+	rep.Rule = "valid still files (lossy with 1/2/4/8 partitions, lossless, lossy+alpha raw/compressed, extended with metadata before and after the image, odd payloads, testdata); for EVERY prefix length 0..len-1: Decode, DecodeConfig and GetFeatures - Decode and DecodeConfig both through a bytes.Reader and through a reader that offers only Read (no Len()) - must fail or equal the full-file result (exhaustive per file); a panic of any entry point is a finding (C05 and C17), not the end of the suite; the same prefixes go through the Lean container model (features/config ops) for correspondence; non-trivial = prefix length > 12"
 	r := NewRNG(rep.Seed, 17)
 	nfiles := 40
 	maxLen := 3500
@@ -609,8 +699,12 @@ func suiteC17(rep *Report) error {
 		files = append(files, Seed{fmt.Sprintf("gen/%dx%d/lossless=%v/part=%d/meta=%v", w, h, o.Lossless, o.Partitions, o.EXIF != nil || o.ICC != nil || o.XMP != nil), b, true})
 		if r.Chance(1, 3) {
 			// metadata AFTER and BEFORE the image via the muxer
-			d, err := mux.NewDemuxer(b)
-			if err == nil {
+			icc, xmp := r.Bytes(1+r.Intn(5)), r.Bytes(1+r.Intn(5))
+			if st, pm := guard(func() string {
+				d, err := mux.NewDemuxer(b)
+				if err != nil {
+					return "err"
+				}
 				f, _ := d.Frame(0)
 				m := mux.NewMuxer()
 				data := f.Data
@@ -618,12 +712,16 @@ func suiteC17(rep *Report) error {
 					data = alphPrefixed(f.AlphaData, f.Data)
 				}
 				_ = m.AddFrame(data, nil)
-				m.SetICCProfile(r.Bytes(1 + r.Intn(5)))
-				m.SetXMP(r.Bytes(1 + r.Intn(5)))
+				m.SetICCProfile(icc)
+				m.SetXMP(xmp)
 				var mb bytes.Buffer
 				if m.Assemble(&mb) == nil && mb.Len() <= maxLen {
 					files = append(files, Seed{"mux-still", mb.Bytes(), true})
 				}
+				return "ok"
+			}); st == "panic" {
+				rep.Add(Finding{Kind: "property", Property: "C05", Signature: "panic:NewDemuxer:" + panicClass(pm), Detail: "demuxing / re-muxing an encoder output panicked: " + pm,
+					Input: map[string]any{"op": "c17", "hex": hx(b), "prefix": len(b)}})
 			}
 		}
 	}
@@ -636,42 +734,80 @@ func suiteC17(rep *Report) error {
 		op   string
 	}
 	var refs []ref
+	// every call into /repo runs under guard(): a panic is a finding (C05 panic:<entry>:<class> and C17
+	// prefix:<entry>:panics), not the end of the suite
+	decodeLine := func(rd io.Reader) (string, string) {
+		return guard(func() string {
+			im, err := webp.Decode(rd)
+			if err != nil {
+				return "err"
+			}
+			return digest(toNRGBA(im).Pix) + imgModelName(im) + im.Bounds().String()
+		})
+	}
 	for fi, f := range files {
-		full, ferr := webp.Decode(bytes.NewReader(f.Data))
-		if ferr != nil {
-			rep.Add(Finding{Kind: "property", Property: "C17", Signature: "prefix:seed-not-decodable", Detail: f.Name + ": " + ferr.Error(),
+		fullPix, fpm := decodeLine(bytes.NewReader(f.Data))
+		if fullPix == "err" || fullPix == "panic" {
+			rep.Add(Finding{Kind: "property", Property: "C17", Signature: "prefix:seed-not-decodable", Detail: f.Name + ": " + fullPix + " " + fpm,
 				Input: map[string]any{"op": "c17", "hex": hx(f.Data)}})
 			continue
 		}
-		fullPix := digest(toNRGBA(full).Pix) + imgModelName(full) + full.Bounds().String()
-		fullCfg := goConfig(f.Data)
-		fullFt := goFeatures(f.Data)
+		fullCfg, _ := guard(func() string { return goConfig(f.Data) })
+		fullFt, _ := guard(func() string { return goFeatures(f.Data) })
+		if s, _ := decodeLine(streamOnly{bytes.NewReader(f.Data)}); s != fullPix {
+			rep.Add(Finding{Kind: "property", Property: "C17", Signature: "prefix:decode:full-file-differs-stream-reader", Detail: f.Name + ": Decode through a reader without Len() gives " + short(s, 60) + " on the whole file",
+				Input: map[string]any{"op": "c17", "hex": hx(f.Data), "prefix": len(f.Data)}})
+		}
 		for n := 0; n < len(f.Data); n++ {
-			p := f.Data[:n]
+			p := f.Data[:n:n]
+			in := map[string]any{"op": "c17", "hex": hx(f.Data), "prefix": n}
 			add := func(sig, detail string) {
 				rep.Add(Finding{Kind: "property", Property: "C17", Signature: "prefix:" + sig,
-					Detail: fmt.Sprintf("%s, prefix %d of %d bytes: %s", f.Name, n, len(f.Data), detail),
-					Input:  map[string]any{"op": "c17", "hex": hx(f.Data), "prefix": n}})
+					Detail: fmt.Sprintf("%s, prefix %d of %d bytes: %s", f.Name, n, len(f.Data), detail), Input: in})
 			}
-			s, pm := guard(func() string {
-				im, err := webp.Decode(bytes.NewReader(p))
-				if err != nil {
-					return "err"
-				}
-				return digest(toNRGBA(im).Pix) + imgModelName(im) + im.Bounds().String()
-			})
+			panicked := func(entry, pm string) {
+				rep.Add(Finding{Kind: "property", Property: "C05", Signature: "panic:" + entry + ":" + panicClass(pm), Detail: entry + " panicked on a prefix: " + pm, Input: in})
+				add(strings.ToLower(strings.TrimPrefix(strings.TrimPrefix(entry, "Decode"), "Get"))+":panics", entry+" panicked: "+pm)
+			}
+			s, pm := decodeLine(bytes.NewReader(p))
 			if s == "panic" {
-				rep.Add(Finding{Kind: "property", Property: "C05", Signature: "panic:Decode:" + panicClass(pm), Detail: "Decode panicked on a prefix: " + pm,
-					Input: map[string]any{"op": "c17", "hex": hx(f.Data), "prefix": n}})
+				rep.Add(Finding{Kind: "property", Property: "C05", Signature: "panic:Decode:" + panicClass(pm), Detail: "Decode panicked on a prefix: " + pm, Input: in})
+				add("decode:panics", "Decode panicked: "+pm)
 			} else if s != "err" && s != fullPix {
 				add("decode:differs", "Decode returned a different picture than the full file")
 			}
-			c := goConfig(p)
-			if !strings.HasPrefix(c, "err") && c != fullCfg {
+			// the same prefix through a reader that offers nothing but Read (no Len(), no ReadFrom): the
+			// package then collects the bytes in a buffer of its own, with spare capacity behind them
+			s2, pm2 := decodeLine(streamOnly{bytes.NewReader(p)})
+			if s2 == "panic" {
+				rep.Add(Finding{Kind: "property", Property: "C05", Signature: "panic:Decode:" + panicClass(pm2), Detail: "Decode (stream reader) panicked on a prefix: " + pm2, Input: in})
+				add("decode:panics", "Decode (reader without Len) panicked: "+pm2)
+			} else if s2 != "err" && s2 != fullPix {
+				add("decode:differs-stream-reader", "Decode through a reader without Len() returned a different picture than the full file")
+			} else if (s == "err") != (s2 == "err") && s != "panic" {
+				add("decode:reader-kinds-disagree", fmt.Sprintf("bytes.Reader: %s, reader without Len(): %s", short(s, 20), short(s2, 20)))
+			}
+			c, cpm := guard(func() string { return goConfig(p) })
+			if c == "panic" {
+				panicked("DecodeConfig", cpm)
+			} else if !strings.HasPrefix(c, "err") && c != fullCfg {
 				add("config:differs", fmt.Sprintf("DecodeConfig %q vs full %q", c, fullCfg))
 			}
-			ft := goFeatures(p)
-			if !strings.HasPrefix(ft, "err") && ft != fullFt {
+			if c2, cpm2 := guard(func() string {
+				cf, err := webp.DecodeConfig(streamOnly{bytes.NewReader(p)})
+				if err != nil {
+					return "err " + containerErrName(err)
+				}
+				return fmt.Sprintf("ok cm=%s w=%d h=%d", cmName(cf.ColorModel), cf.Width, cf.Height)
+			}); c2 == "panic" {
+				panicked("DecodeConfig", cpm2)
+			} else if !strings.HasPrefix(c2, "err") && c2 != fullCfg {
+				add("config:differs-stream-reader", fmt.Sprintf("DecodeConfig (reader without Len) %q vs full %q", c2, fullCfg))
+			}
+			ft, fpm := guard(func() string { return goFeatures(p) })
+			if ft == "panic" {
+				panicked("GetFeatures", fpm)
+			} else if !strings.HasPrefix(ft, "err") && ft != fullFt {
 				add("features:differs", fmt.Sprintf("GetFeatures %q vs full %q", ft, fullFt))
 			}
 			rep.Eval(n > 12, append([]byte(fmt.Sprintf("%d:%d:", fi, n)), p...))
@@ -703,6 +839,11 @@ func suiteC17(rep *Report) error {
 	}
 	return nil
 }
+
+// streamOnly hides every method of a reader except Read (no Len, Size, ReadFrom, WriteTo, Seek ...).
+type streamOnly struct{ r io.Reader }
+
+func (s streamOnly) Read(p []byte) (int, error) { return s.r.Read(p) }
 
 // isAnimatedFile: VP8X header with the animation flag set.
 func isAnimatedFile(b []byte) bool {
